@@ -56,6 +56,10 @@ def rand_case(rng, memos=MEMOS, maxdim=9):
         c["pred"] = "steps:%d" % rng.randint(1, 3)
     else:
         c["T"] = rng.randint(2, 4)
+    if rng.random() < 0.2:
+        c["clobber"] = 1
+    if rng.random() < 0.3:
+        c["layout"] = rng.choice(["F", "rev", "str", "T"])
     return c
 
 
